@@ -394,6 +394,17 @@ func scenarios() []scenario {
 		sRec("u0"), sOp(dt("t1", "v2", "")),
 		sOp(du("u0", "v1beta1", "")), sRec("u0"), sOp(dt("t1", "v1", "Orphan")),
 	}})
+	// G: the Usage is created (and reconciled) BEFORE the resource it names exists, e.g. both are
+	// composed by one XR and the Usage is applied first; the resource appears and is deleted before
+	// the Usage is reconciled again, then appears once more
+	u4 := usageSpec{Name: "u1", Version: "v1beta1", Of: ref("t4", "v1")}
+	t4 := thingSpec{Name: "t4", Version: "v1", Grp: "a"}
+	out = append(out, scenario{Name: "usage-created-before-the-used-resource", Things: baseThings, Steps: []step{
+		sOp(cu(u4)), sRec("u1"), sRec("u1"),
+		sOp(op{Kind: "createThing", Thing: &t4}), sOp(dt("t4", "v1", "")),
+		sRec("u1"), sGC(),
+		sOp(op{Kind: "createThing", Thing: &t4}), sRec("u1"), sRec("u1"), sOp(dt("t4", "v1", "Background")),
+	}})
 	return out
 }
 
